@@ -148,6 +148,22 @@ Theorem C06_crash_recoverable_warc_gz :
 Proof. intros g H. exact (crash_valid (warc_gz_valid g) (warc_gz_valid_app g H)). Qed.
 Print Assumptions C06_crash_recoverable_warc_gz.
 
+(* ================= sequences of I/O errors within one append ==========================================
+   A second injected error while the handler runs (rollback open / truncate / close, unlink), a kill, or
+   neither: EVERY ending of write_record - Completed, Raised, Crashed - leaves the archive old, or
+   old + the complete record, or a complete journal naming the old length whose truncation restores the
+   old content.  (When the rollback itself fails the journal is kept: fix commit of this round.) *)
+Theorem C06_fault_sequence_recoverable :
+  forall (s : fs) (A : name) (chunks : list bytes) (flt flt2 crash : option interrupt),
+    let s' := state_of (write_record2 A chunks flt flt2 crash s) in
+    content s' A = content s A
+    \/ content s' A = content s A ++ concat chunks
+    \/ (lookup s' (journal_name A) <> None
+        /\ parse_journal (content s' (journal_name A)) = Some (size s A)
+        /\ truncate_to (size s A) (content s' A) = content s A).
+Proof. exact always_recoverable. Qed.
+Print Assumptions C06_fault_sequence_recoverable.
+
 (* ================= histories: any number of appends, each with a fault at an arbitrary point ========= *)
 (* one attempt under ANY fault plan (position beyond the last primitive = no fault) ends Completed or
    Raised; the archive is old or old+record as [survives] says; other files untouched; journal gone
@@ -321,3 +337,13 @@ Example C06_init_refuses_nonvacuous :
     = (StartRefused, Raised ((journal_name ex_A, []) :: ex_fs))
   /\ fst (recorder_init (str "out/a[1]"%string) false true false [[1; 2]] None None ex_fs) = StartOk.
 Proof. vm_compute. split; reflexivity. Qed.
+
+(* two I/O errors: the second archive write fails after junk, then the truncate of the rollback fails too:
+   the call raises, the junk is still there - and so is the journal, so the next run refuses *)
+Example C06_fault_sequence_nonvacuous :
+  exists s', write_record2 ex_A ex_chunks (Some (Intr 5 false [99; 98])) (Some (Intr 7 false [])) None ex_fs = Raised s'
+    /\ content s' ex_A = content ex_fs ex_A ++ [40; 41; 99; 98]
+    /\ parse_journal (content s' (journal_name ex_A)) = Some 6
+    /\ truncate_to 6 (content s' ex_A) = content ex_fs ex_A
+    /\ new_recorder_check (str "out/a[1]"%string) s' = StartRefused.
+Proof. eexists. vm_compute. repeat split. Qed.
